@@ -739,7 +739,8 @@ def projStep (docs : List Val) (s : ProjState) (field : String) (value : Val) : 
     if s.method = .unset && (field != "_id" || value.truthy) then
       .ok (if value.truthy then .inc else .exc)
     else if s.method = .inc && !value.truthy && field != "_id" then .error .opFail
-    else if s.method = .exc && value.truthy then .error .opFail
+    else if s.method = .exc && value.truthy && (field != "_id" || !(pyEq value (.int 1))) then
+      .error .opFail                                -- `value not in (1, True)`
     else .ok s.method
   match m with
   | .error e => .error e
@@ -772,7 +773,8 @@ def zipMerge : List Val → List Fields → List Val
 /-- `none` = the stage returns `None` (no inclusion / exclusion and no computed field) -/
 def projectStageOpt : Val → List Val → R (Option (List Val))
   | .doc options, docs =>
-    match projLoop docs options {} with
+    -- the first field other than `_id` decides between inclusion and exclusion
+    match projLoop docs options { method := aggInitMethod options } with
     | .error e => .error e
     | .ok s =>
       let idIncluded : Bool := !(pyEq ((dget "_id" options).getD (.int 1)) (.int 0))
